@@ -51,6 +51,11 @@ impl Read for Script {
 }
 
 fn edr_body(first_fill: bool, cap: usize, len: usize) {
+    edr_body_at(first_fill, cap, len, None)
+}
+
+/// `fixed`: concrete (cursor, fill) instead of symbolic ones (keeps every allocation size concrete).
+fn edr_body_at(first_fill: bool, cap: usize, len: usize, fixed: Option<(usize, usize)>) {
     let stream: [u8; STREAM] = kani::any();
     let counts: [usize; CALLS] = kani::any();
     kani::assume(counts[0] <= 8 && counts[1] <= 8 && counts[2] <= 8);
@@ -63,6 +68,9 @@ fn edr_body(first_fill: bool, cap: usize, len: usize) {
         kani::assume(fill == 0 && cursor == 0 && base == 0);
     } else {
         kani::assume(cursor <= fill && fill <= 8 && fill <= cap);
+        if let Some((c, f)) = fixed {
+            kani::assume(cursor == c && fill == f);
+        }
     }
     // buffer: stream prefix below the fill level, arbitrary stale bytes above
     let mut buf = vec![0u8; cap];
@@ -92,8 +100,10 @@ fn edr_body(first_fill: bool, cap: usize, len: usize) {
     assert!(off + nfill == base + it.get_ref().pos, "C04b: every byte the source delivered is in the buffer, none twice");
     // logical view equals the stream
     let a: usize = kani::any();
-    kani::assume(a >= abs_cur && a < off + nfill);
-    assert!(it.verif_buffer()[a - off] == stream[a - base], "C04b: buffered window equals the stream at every absolute position");
+    if a >= abs_cur && a < off + nfill {
+        // (a guarded assertion, not an assume: the window may be empty)
+        assert!(it.verif_buffer()[a - off] == stream[a - base], "C04b: buffered window equals the stream at every absolute position");
+    }
     match &r {
         Ok(true) => {
             assert!(ncur + len <= nfill, "C04b: Ok(true) means the requested bytes are buffered");
@@ -150,6 +160,24 @@ fn edr_first_fill_cap0_len1() {
 fn edr_refill_cap16_len5() {
     // a payload-sized request
     edr_body(false, 16, 5);
+}
+
+#[kani::proof]
+#[kani::unwind(26)]
+#[kani::stub(<core::io::CustomOwner as core::ops::Drop>::drop, stubs::noop_custom_owner_drop)]
+#[kani::stub(std::hash::RandomState::new, stubs::fixed_random_state)]
+fn edr_refill_cap16_len16_at_6_8() {
+    // concrete cursor 6 / fill 8: the request does not fit behind the cursor, but fits the allocation
+    edr_body_at(false, 16, 16, Some((6, 8)))
+}
+
+#[kani::proof]
+#[kani::unwind(26)]
+#[kani::stub(<core::io::CustomOwner as core::ops::Drop>::drop, stubs::noop_custom_owner_drop)]
+#[kani::stub(std::hash::RandomState::new, stubs::fixed_random_state)]
+fn edr_refill_cap8_len16_at_4_8() {
+    // concrete cursor 4 / fill 8 with an allocation that must grow
+    edr_body_at(false, 8, 16, Some((4, 8)))
 }
 
 /// C05d: the only `source.read` call site. A failing source surfaces as ReadError
